@@ -162,6 +162,10 @@ theorem runChild_panic (c : Cfg) (o : Oracle) : ∀ (p : Prog) (h : Handle) (db 
     rw [panicTagsChild]
     unfold runChild at hr
     exact runBody_panic c o body (derive k h) (markStale h db) q hr
+  | .fh src body m, h, db, q, hr => by
+    rw [panicTagsChild]
+    unfold runChild at hr
+    exact runBody_panic c o body (failH o src h (markStale h db)).2 (failH o src h (markStale h db)).1 q hr
 theorem runBody_panic (c : Cfg) (o : Oracle) : ∀ (ps : List Prog) (h : Handle) (db : DB) (q : Nat),
     (runBody c o h ps db).2.2 = .panic q → q ∈ panicTagsBody ps
   | [], h, db, q, hr => by
